@@ -55,6 +55,12 @@ pub struct TwinCase {
     /// inspector of the second system (C28)
     pub insp_b: InspKind,
     pub ops: Vec<HOp>,
+    /// C22: the reward-off system carries no inspector (and so no inspector handler
+    /// register): popping the appended registers then empties the register list, which is
+    /// a rebuild path of its own; the reward-on twin's monitor alone tells whether the
+    /// beneficiary was a party of the transaction
+    #[serde(default)]
+    pub bare_a: bool,
 }
 
 pub struct TwinSim {
@@ -213,9 +219,7 @@ impl Engine for TwinSim {
     }
 
     fn generate(&self, rng: &mut Rng) -> TwinCase {
-        // C22: half of the reward-off systems carry no inspector, so that popping the appended
-        // registers empties the register list (its own rebuild path)
-        let mut k = WorldKnobs::new(if self.mode == "C22" && rng.bool() { InspKind::Monitor } else { InspKind::None });
+        let mut k = WorldKnobs::new(if self.mode == "C22" { InspKind::Monitor } else { InspKind::None });
         if self.mode == "C31" {
             k.tune = |c, _r| {
                 c.w_transient = 10;
@@ -311,7 +315,8 @@ impl Engine for TwinSim {
             };
             ops.push(op);
         }
-        TwinCase { world, insp_b, ops }
+        let bare_a = self.mode == "C22" && rng.bool();
+        TwinCase { world, insp_b, ops, bare_a }
     }
 
     fn execute(&self, case: &TwinCase, stats: &mut Stats) -> Vec<Violation> {
@@ -476,7 +481,7 @@ pub fn run_twin(case: &TwinCase, mode: &str, stats: &mut Stats, mut calls_out: O
             cfg_b.insp = InspKind::None;
         }
         _ => {
-            cfg_a.insp = InspKind::Monitor;
+            cfg_a.insp = if case.bare_a { InspKind::None } else { InspKind::Monitor };
             cfg_b.insp = InspKind::Monitor;
             cfg_a.reward = false;
             cfg_b.reward = true;
